@@ -5,7 +5,7 @@ use std::hash::{Hash, Hasher};
 
 use itertools::Itertools;
 
-use chrono::{NaiveDate, NaiveTime, NaiveDateTime, DateTime, Local, TimeZone, Duration};
+use chrono::{NaiveDate, NaiveTime, NaiveDateTime, DateTime, Local, TimeZone, Duration, Timelike};
 
 use crate::data_model::TableDefinition;
 use crate::execution::ColumnScope;
@@ -469,8 +469,10 @@ impl ValueType {
             ValueType::Timestamp => {
                 // A local time that does not exist in the time zone (daylight saving gap) is not a timestamp,
                 // an ambiguous one (overlap) is taken as the earlier of the two
+                // Second 60 is chrono's notation for a leap second, not a time of day
                 NaiveDateTime::parse_from_str(value_str, "%Y-%m-%d %H:%M:%S")
                     .ok()
+                    .filter(|x| x.nanosecond() < 1_000_000_000)
                     .and_then(|x| Local {}.from_local_datetime(&x).earliest())
                     .map(|x| Value::Timestamp(x))
             }
@@ -1272,6 +1274,11 @@ fn compare_int_float(x: i64, y: f64) -> Ordering {
 }
 
 pub fn create_timestamp(year: i32, month: u32, day: u32, hour: u32, minute: u32, second: u32, microsecond: u32) -> Option<TimestampType> {
+    // A fraction of a second or more would be read as a leap second at second 59
+    if microsecond >= 1_000_000 {
+        return None;
+    }
+
     let timestamp = NaiveDateTime::new(
         NaiveDate::from_ymd_opt(year, month, day)?,
         NaiveTime::from_hms_micro_opt(hour, minute, second, microsecond)?
